@@ -110,7 +110,7 @@ pub fn gen_row_cols(rng: &mut Rng, lg_k: u8, max: usize, union_safe: bool) -> Ve
     let rc = |row: u32, col: u32| -> u32 { ((row & (k - 1)) << 6) | (col & 63) };
     let mut out = vec![];
     let _ = union_safe;
-    let mut g = rng.below(7);
+    let mut g = rng.below(8);
     if g == 3 || g == 4 {
         g = 1 + rng.below(2);
     }
@@ -177,6 +177,24 @@ pub fn gen_row_cols(rng: &mut Rng, lg_k: u8, max: usize, union_safe: bool) -> Ve
                 for c in 0..64 {
                     out.push(rc(r, c));
                 }
+            }
+        }
+        7 => {
+            // a dense band of neighbouring rows (low columns only) and a few pairs far away from it:
+            // row gaps tens of times the mean gap, which the pair coder writes as long unary runs
+            let w = rng.range(4, 32) as u32;
+            let cols = rng.range(2, 7) as u32;
+            let r0 = rng.next_u32();
+            'b: for r in 0..w {
+                for c in 0..cols {
+                    if out.len() + 4 >= max {
+                        break 'b;
+                    }
+                    out.push(rc(r0.wrapping_add(r), c));
+                }
+            }
+            for _ in 0..1 + rng.below(3) {
+                out.push(rc(r0.wrapping_add(k / 4 + rng.below((k / 2).max(1) as u64) as u32), rng.below(3) as u32));
             }
         }
         5 => {
